@@ -3,7 +3,7 @@ import os, subprocess, tempfile, shutil
 import common, schema, histgen, refcbor
 from concurrent.futures import ThreadPoolExecutor
 THEOREMS = ["C18_merge_blocks", "C18_block_content", "C18_params_preserved", "C18_rejected_contribute_nothing",
-            "C18_version_mismatch_not_registered", "C18_itemcount", "C18_nonvacuous"]
+            "C18_version_mismatch_not_registered", "C18_itemcount", "C18_merged_file", "C18_merged_file_hypotheses_decidable", "C18_merged_file_nonvacuous", "C18_nonvacuous"]
 TOOLS = True
 
 def make_files(ctx, sch, rng, n):
@@ -90,6 +90,7 @@ def run(ctx):
             else: args.append((j, kind, data))
         tuples.append(args)
     diffs, fails, cases = [], [], []
+    prem = {"tuples": 0, "merged_file_hypotheses_hold": 0}
     def one(ix):
         args = tuples[ix]
         d = tempfile.mkdtemp(prefix="m.", dir=root)
@@ -122,6 +123,8 @@ def run(ctx):
                     "inputs": [(data.hex() if data is not None else None) for (j, kind, data) in args], "names": [j for (j, kind, data) in args],
                     "meta": {"kind": "+".join(kind for (j, kind, data) in args)}}
             cases.append(case)
+            prem["tuples"] += 1
+            if "#mergeok 1" in ml: prem["merged_file_hypotheses_hold"] += 1
             why = None
             if rc != 0 or "Sanitizer" in err or "runtime error" in err: why = "cdns-merge exit status %d: %s" % (rc, err[-200:])
             elif merged is None: why = "cdns-merge produced no output file"
@@ -163,6 +166,7 @@ def run(ctx):
                 if (mt and mt[0][4:].split() != ic[()][1].split() and mt[0] != "tot -") or " ".join(mb).split() != ic[("-b",)][1].split():
                     diffs.append((cid, case, "cdns-itemcount output differs from the model's: %r / %r vs %r" % (ic[()][1].split(), ic[("-b",)][1].split()[:6], icm[:3])))
     shutil.rmtree(root, ignore_errors=True)
+    rep.cov["merged_file_theorem_premises"] = prem
     common.summarize_cov(rep, cases,
         "tuples of 1-4 arguments for the real cdns-merge binary (ASan/UBSan build) drawn from exporter-produced files with 1-3 parameter sets and "
         "differing tick rates: intact files, files cut at a random byte, garbage, missing paths, the same path twice, files of another "
